@@ -2581,6 +2581,39 @@ func (s *State) EqualUnder(a, b *Term) bool {
 			return true
 		}
 	}
+	// equivalence classes: follow the equalities in both directions (a term
+	// may be equal to a variable that is equal to something else), rewriting
+	// each term reached through the variables it mentions
+	adj := map[string][]*Term{}
+	for _, e := range s.m {
+		if e.Pos && e.Op == "eq" && e.B != nil {
+			adj[e.A.String()] = append(adj[e.A.String()], e.B)
+			adj[e.B.String()] = append(adj[e.B.String()], e.A)
+		}
+	}
+	seen := map[string]bool{}
+	for x := range na {
+		seen[x] = true
+	}
+	work := make([]string, 0, len(na))
+	for x := range na {
+		work = append(work, x)
+	}
+	for steps := 0; len(work) > 0 && steps < 400; steps++ {
+		x := work[0]
+		work = work[1:]
+		for _, t := range adj[x] {
+			for v := range s.variants(t) {
+				if nb[v] {
+					return true
+				}
+				if !seen[v] {
+					seen[v] = true
+					work = append(work, v)
+				}
+			}
+		}
+	}
 	return false
 }
 
